@@ -53,7 +53,7 @@ E2E_RULE = {
             "non-advertising interfaces."),
     "C20": (" Whole-process part (36 / 1600 cases, one in four with an interface that does not exist): exit status 0 and no death by signal for "
             "SIGTERM/SIGINT/SIGHUP, exactly one connection per existing advertising/monitoring interface and none for others, each closed exactly "
-            "once and nothing written after, READY=1 exactly once when every task came up and never while an interface task cannot initialise."),
+            "once and nothing written after, READY=1 exactly once when every task came up and never while an interface task cannot initialise; one case in eight delivers the signal while main() is still between signal.Notify and Serve (held inside BuildTasks by an undrained stderr pipe): the process must stop all the same."),
 }
 
 PROPS = {
@@ -331,7 +331,7 @@ PROPS = {
         "thorough": {"shards": 16},
         "rule": ("message sequences for a running Advertiser (2/3) or Monitor (1/3) in a synctest bubble: segments of 0..40 consecutive invalid messages "
                  "(hop limit other than 255 on RS/RA/NS/NA; NS/NA on an advertiser) followed by 0..3 valid ones (RS with/without SLLA from 4 sources incl. "
-                 "::, consistent and inconsistent RAs), gaps 0 ns..3 s, ending with two valid solicitations from fresh sources; exhaustive single "
+                 "::, consistent and inconsistent RAs - one inconsistent RA in four with a prefix option whose length byte is 129 or 255 -), gaps 0 ns..3 s, ending with two valid solicitations from fresh sources; exhaustive single "
                  "messages for every hop limit 0..255 x {RS, RA, NS, NA} on the advertiser (every 16th on the monitor). Oracle: differential against the "
                  "same sequence with the invalid messages deleted (same transmissions per destination and content, same inconsistency reports and hook "
                  "calls, same monitor callbacks and gauges), the C07 matching rules for the valid solicitations, messages_received_invalid_total by "
@@ -386,7 +386,7 @@ PROPS = {
         "rule": ("policy layer (package system): the real Dialer.Dial on virtual time with scripted DialFunc and task; every distinct execution of <=4 "
                  "(quick) / <=6 (thorough) decisions over dial outcomes {ok, link-not-ready, syscall, permission, other} x task outcomes {nil, link "
                  "change, syscall, permission, retries exhausted, other} x 7 cancellation instants (off the 250 ms grid), enumerated by a model-driven "
-                 "DFS; 48..53 consecutive failing attempts around the 50-attempt bound; 1..300 recovery rounds within one Dial call; rapid-generated scripts up to 60 decisions. Oracle: reference "
+                 "DFS; the same executions of <=3 decisions over the real dial() (real checkInterface on scripted link flags / address dumps, failures injected at the lookup, readiness-check or socket stage); 48..53 consecutive failing attempts around the 50-attempt bound; 1..300 recovery rounds within one Dial call; rapid-generated scripts up to 60 decisions. Oracle: reference "
                  "model of the policy (which steps happen, the virtual time of every dial attempt - waits 0, 250 ms, ... capped at 3 s, at most 50 - "
                  "the final result and its time); the observed trace must equal it. Liveness layer (package corerad): a fault {1..20 receive "
                  "timeouts, read error syscall/permission/other, link event, failing n-th scheduled unicast write syscall/other, an outage = every write from the n-th on fails on the first connection} injected at a "
@@ -411,7 +411,7 @@ PROPS = {
         "quick": {"shards": 8},
         "thorough": {"shards": 16},
         "rule": ("histories of 2..14 timed operations on a real Advertiser.Run in a synctest bubble: forwarding flips of the advertising interface and "
-                 "of up to two (one case in eight: 7..100) further configured interfaces, RS from unicast sources and ::, periodic RAs, foreign inconsistent RAs (the hook exposes "
+                 "of up to two (one case in eight: 7..100) further configured interfaces and 0..3 monitoring / idle interfaces configured before it, RS from unicast sources and ::, periodic RAs, foreign inconsistent RAs (the hook exposes "
                  "CoreRAD's own RA), metric scrapes (constScrape with fresh collectors) and GET /_/api/interfaces (crhttp handler sharing the same "
                  "config.Interface values), stop with terminate; default_lifetime in {0, 12 s, 1800 s, 9000 s}; exhaustive matrix {paths} x {forwarding "
                  "before/after a flip, no flip} x lifetime {0, 1800, 9000}. Oracle per generated RA, with f = forwarding at that instant from the "
@@ -459,7 +459,7 @@ PROPS = {
         "quick": {"shards": 8},
         "thorough": {"shards": 16},
         "rule": ("sequences of 1..16 NDP messages (one in four repeats an earlier message verbatim, from another sender or with one flag flipped): RAs with arbitrary header values (hop limit 0..255, M/O, preference, lifetime 0/1/1800/9000/65535 s) and "
-                 "0..6 options (prefix options with repeated prefixes, lengths /0 /8 /32 /64 /128, zero, finite and infinite lifetimes; unknown, route, "
+                 "0..6 options (prefix options with repeated prefixes, lengths /0 /8 /32 /64 /128 and, one in twelve, an impossible length byte 129/200/255 patched into the wire bytes, zero, finite and infinite lifetimes; unknown, route, "
                  "RDNSS, DNSSL, MTU, SLLA options), RS, NS and NA, from 4 senders (link-local senders get a zone on the Run path), gaps of 0 ns..1 h, wall "
                  "clock 1970..2100. Two paths: Monitor.handle with an injected clock, compared after every message; and a real Monitor.Run in a synctest "
                  "bubble (every RA through MarshalMessage/ParseMessage, zone stripped by the listener), compared at the end. Oracle: last-write-wins "
@@ -467,7 +467,7 @@ PROPS = {
                  "gauges; default-route expiry = unix(receipt + lifetime) only when the lifetime is non-zero; per prefix option on-link/autonomous and "
                  "preferred/valid expiry labelled by the CIDR. Non-trivial: an RA with a prefix option or a repeated sender. Distinct: FNV-64 of the "
                  "canonical JSON case."),
-        "assumptions": [STAGED, BUBBLE, FAKES, "prefix lengths are within 0..128"],
+        "assumptions": [STAGED, BUBBLE, FAKES, "how a prefix option with an impossible length byte (129..255, overwritten on the wire) is labelled is not judged"],
         "technique": "rapid property-based testing of message sequences against a last-write-wins reference model (value path and real Run on virtual time)",
         "level_text": "Random message sequences compared with a reference metric model after every message; counterexample search, not proof.",
         "level_note": "Trusts the model c18Apply (written from the statement), metricslite's in-memory series and the ndp codec.",
